@@ -646,7 +646,7 @@ func TestC08(t *testing.T) {
 			}
 			return s
 		}
-		switch rapid.IntRange(0, 11).Draw(rt, "entry") {
+		switch rapid.IntRange(0, 12).Draw(rt, "entry") {
 		case 0, 1, 2, 3:
 			in = c08Input{Kind: "dsl", Text: strip(gen.Mutate(rt, rapid.SampledFrom(allDSL).Draw(rt, "doc"), allDSL, 4))}
 		case 4:
@@ -659,6 +659,13 @@ func TestC08(t *testing.T) {
 			in = c08Input{Kind: "modfile", Text: gen.Mutate(rt, base, corp.ModYAML, 3)}
 		case 8:
 			in = c08Input{Kind: "modfile", Text: c15GenManifest(rt).Text}
+		case 12:
+			// tiny documents: nothing at all, blanks, comments only, a few hostile constants in a row
+			var b strings.Builder
+			for i, n := 0, rapid.IntRange(0, 3).Draw(rt, "nTiny"); i < n; i++ {
+				b.WriteString(rapid.SampledFrom(gen.Hostile).Draw(rt, "tiny"))
+			}
+			in = c08Input{Kind: "dsl", Text: strip(b.String())}
 		case 9:
 			// generated module sets with injected conflicts in random layouts (tabs, form feeds, comments, CRLF):
 			// the error paths of the merge locate declarations in the raw text
